@@ -108,6 +108,23 @@ CHECKS["C04"] = dict(
     engine="tlc+replay",
 )
 
+CHECKS["C06"] = dict(
+    category="model_checking",
+    text="The severity of every diagnostic site (error_or_log / log_warning / hard error) is part of Parser.tla, so strict-vs-lenient behaviour is a consequence of the specification; every load of the C04 case space and of 220 documents with two and three injected recoverable problems of different classes (every pair and triple of 11 fault classes) is validated against Parser.tla in both modes, including class and line of every diagnostic (R4), and the relations R1-R3 of the property are evaluated by TLC directly on every pair of observed outcomes (relations before predictions).",
+    design_ref="DESIGN.md §4.3, §6 C06, Appendix C",
+    note=_PARSER_NOTE,
+    technique="TLA+ spec (Parser.tla severity table) + relations R1-R3 (Trace_Parser PairVerdict) evaluated by TLC on observed strict/lenient outcome pairs",
+    engine="tlc+replay",
+)
+CHECKS["C07"] = dict(
+    category="model_checking",
+    text="SkipUnknown in Parser.tla transcribes the unknown-tag skipper (begin/end balance, stop list, rewind). For each of the 40 blocks that admit optional sub-elements TLC enumerates documents with 0-2 sub-elements x insertion point x 12 payload shapes (2880 cases; the property's exclusions are generator constraints); base document and document with payload are loaded leniently and strictly by the real library, every load is validated against Parser.tla, and the relation of the property (exactly one more warning, of class UnknownSubBlock naming the element; model equal to the base document's; strict rejects naming the element) is evaluated by TLC on the observed outcomes.",
+    design_ref="DESIGN.md §4.3, §6 C07",
+    note=_PARSER_NOTE,
+    technique="TLA+ spec (Parser.tla SkipUnknown) + relation SkipVerdict evaluated by TLC on observed outcomes of TLC-enumerated payload cases",
+    engine="tlc+replay",
+)
+
 PENDING = "check not built yet in this round; planned per DESIGN.md §6 (no claim made until the TLA+ module and its binding exist)"
 NOT_APPLICABLE = {}
 
